@@ -339,6 +339,60 @@ func main(a, b uint16) (uint, uint8) {
 }`,
 }
 
+// constants reused at several widths (a literal and a zero value first met at one width and needed at another in one
+// instruction: array element stores with their index constants), on 40..128-bit types; %s is the scalar type
+var pgConstWidthTemplates = []string{
+	`package main
+const K %[1]s = 5
+func main(a, b %[1]s) ([2]%[1]s, %[1]s, uint8) {
+	var arr [2]%[1]s
+	var z %[1]s
+	var n uint8 = 5
+	d := a + 5
+	arr[0] = K
+	arr[1] = a + b + z + d
+	var brr [3]uint8
+	brr[2] = 5
+	brr[0] = uint8(b)
+	return arr, d * 3, brr[2] + n + brr[0]
+}`,
+	`package main
+const M %[1]s = 3
+func main(a, b %[1]s) ([3]%[1]s, bool) {
+	var z %[1]s
+	var w uint16 = 3
+	var arr [3]%[1]s
+	arr[2] = M
+	arr[0] = z
+	arr[1] = (a ^ 3) + (b & M) + %[1]s(w)
+	c := arr
+	c[0] = 1
+	return c, arr[1] > z
+}`,
+}
+
+// pgLivenessPrograms: two inputs are stored into an array, an element is read back (an alias of part of the array),
+// and the three values a, b, y die in every possible order, a fresh value of the same width being computed right
+// after each death (the allocator hands it the ids just freed).  Garbage collection must keep an id alive as
+// long as any alias of it is.
+func pgLivenessPrograms() []string {
+	var progs []string
+	orders := [][3]string{{"a", "b", "y"}, {"a", "y", "b"}, {"b", "a", "y"}, {"b", "y", "a"}, {"y", "a", "b"}, {"y", "b", "a"}}
+	for _, T := range []string{"uint8", "uint32"} {
+		for n := 2; n <= 3; n++ {
+			for el := 0; el < 2; el++ {
+				for _, o := range orders {
+					src := fmt.Sprintf("package main\nfunc main(a, b %[1]s) %[1]s {\n\tvar arr [%[2]d]%[1]s\n\tarr[0] = a\n\tarr[%[3]d] = b\n\ty := arr[%[4]d]\n"+
+						"\tu1 := (%[5]s + 1) * 3\n\tu2 := (%[6]s ^ u1) + 7\n\tu3 := (%[7]s + u2) * 5\n\treturn u3 - u1\n}\n",
+						T, n, n-1, el*(n-1), o[0], o[1], o[2])
+					progs = append(progs, src)
+				}
+			}
+		}
+	}
+	return progs
+}
+
 type pgStructTemplate struct {
 	src    string
 	inputs func(rng *rand.Rand) ([]string, []string)
